@@ -1,6 +1,6 @@
 #!/usr/bin/env python3
 """Apply each behaviour-preserving refactoring to /repo, run ALL checks, undo. Any exit 1 is a false alarm, exit 2 an
-unrecognised idiom. usage: tools/try_refactors.py PATCH..."""
+unrecognised idiom. usage: tools/try_refactors.py [--checks C01,C02] refactors/*.patch.diff"""
 import os, subprocess, sys, json
 HERE = os.path.dirname(os.path.dirname(os.path.abspath(__file__)))
 def sh(cmd, **kw): return subprocess.run(cmd, shell=True, stdout=subprocess.PIPE, stderr=subprocess.STDOUT, text=True, **kw)
